@@ -140,7 +140,8 @@ def _execute(line: str):
                 pass
         extra["left_after"] = wire(x)
         if res and res[0] is x:
-            extra["aliased_result"] = cls in MUTABLE
+            # a mutable object - and a stream, whose position is mutable state - must never be handed back as its own result
+            extra["aliased_result"] = cls in MUTABLE or cls in ("ConstBitStream", "BitStream")
         extra["again"] = guarded(lambda: (mk(cls, a) << n) if op == "shl" else (mk(cls, a) >> n), wire)
     elif op in ("ishl", "ishr"):
         n = int(b)
@@ -197,7 +198,7 @@ def oracle(line: str, out: str, extra: dict):
     if "literal_after" in extra and extra["literal_after"] != extra["literal_expected"]:
         return f"the literal operand now parses to {extra['literal_after']} instead of {extra['literal_expected']}"
     if extra.get("aliased_result"):
-        return "operator on a mutable object returned the operand itself"
+        return "operator on a mutable object (or a stream, whose position is state) returned the operand itself"
     return None
 
 
